@@ -214,6 +214,7 @@ def check(run: Run) -> None:
             if len(run.samples) < 10:
                 run.sample({"function": g.qual, "returns": [norm(r.ast, 80) for r in rets], "law_names": sorted(strict)[:6]})
     p6_mutual_inverses(run, w)
+    p7_exact_comparisons(run, w)
     run.notes["calculate_functions"] = ncalc
     run.floor("P1", ncalc, 400, "calculate_* functions")
     p3 = run.rules["P3"]
@@ -323,3 +324,46 @@ def p6_mutual_inverses(run: Run, w: World) -> None:
                 elif len([s for s in run.samples if isinstance(s, dict) and s.get("rule") == "P6"]) < 3:
                     run.sample({"rule": "P6", "module": m.name, "composition": f"{F.name}({g}_ := {G.name}(...)) = {f}"})
     run.notes["p6_pairs_examined"] = npairs
+
+
+# --------------------------------------------------------------------------------------------- P7: exact quantity comparisons
+
+QMOD = "symplyphysics.core.symbols.quantities"
+
+
+def p7_exact_comparisons(run: Run, w: World) -> None:
+    """Piecewise laws compare quantities through `_eval_is_ge` / `_eval_is_positive`: the verdict must be the exact comparison of
+    the SI scale factors (no tolerance, no rounding), otherwise the branch a calculation takes depends on the unit prefix."""
+    from ..flow import Fn, numeric_consts
+    run.rule("P7", "quantity comparisons used by piecewise laws are exact comparisons of SI scale factors (no tolerance)")
+    mod = run.src.need(QMOD)
+    fns = [s for s in mod.tree.body if isinstance(s, ast.FunctionDef) and s.name == "_eval_is_ge"]
+    if not fns:
+        raise AnalysisError("C02/P7: quantities._eval_is_ge not found")
+    f = Fn(w, QMOD, "_eval_is_ge")
+    for r in f.cfg.returns():
+        run.ob("P7", "_eval_is_ge")
+        v = r.ast.value
+        v = v if not (isinstance(v, ast.Name)) else next((d.ast.value for d in f.cfg.reaching().get(r, {}).get(v.id, []) if isinstance(d.ast, ast.Assign)), v)
+        ok = isinstance(v, ast.Compare) and len(v.ops) == 1 and isinstance(v.ops[0], ast.GtE)
+        if ok:
+            sl, sr = f.slice(r, v.left), f.slice(r, v.comparators[0])
+            ok = sl.params == {"lhs"} and sr.params == {"rhs"} and not numeric_consts(sl) and not numeric_consts(sr) \
+                and all(c.split(".")[-1] in ("scale_factor", "float") for c in sl.calls | sr.calls) and ("scale_factor" in sl.calls | sl.attr_names) and ("scale_factor" in sr.calls | sr.attr_names)
+        if not ok:
+            run.violate("P7", f"{QMOD}:_eval_is_ge", f.mod, r.ast,
+                        f"`lhs >= rhs` on quantities is decided by `{norm(r.ast.value, 80)}`; anything but the exact comparison scale_factor(lhs) >= scale_factor(rhs) makes the "
+                        f"branch of a piecewise law depend on the magnitude / unit prefix of the arguments")
+    g = Fn(w, QMOD, "Quantity._eval_is_positive")
+    for r in g.cfg.returns():
+        conds_try = [x for x in ast.walk(g.fn) if isinstance(x, ast.Try)]
+        v = r.ast.value
+        if isinstance(v, ast.Constant):
+            continue
+        run.ob("P7", "_eval_is_positive")
+        ok = isinstance(v, ast.Compare) and len(v.ops) == 1 and isinstance(v.ops[0], (ast.GtE, ast.Gt)) and isinstance(v.comparators[0], ast.Constant) and v.comparators[0].value == 0
+        if ok:
+            sl = g.slice(r, v.left)
+            ok = sl.params == {"self"} and not numeric_consts(sl) and all(c.split(".")[-1] in ("scale_factor", "float") for c in sl.calls)
+        if not ok:
+            run.violate("P7", f"{QMOD}:Quantity._eval_is_positive", g.mod, r.ast, f"positivity of a quantity is decided by `{norm(v, 80)}`, not by the sign of its SI scale factor")
